@@ -68,7 +68,8 @@ TEnv ==
             [] E.op = "dropdeps" -> [i \in DOMAIN L |-> IF g.stmts[i].deps \in {"gcc", "msvc"} THEN [L[i] EXCEPT !.recok = FALSE] ELSE L[i]]
             [] E.op = "setstmts" -> [i \in 1..Len(E.g.stmts) |->
                                        IF i \in DOMAIN L /\ i \in DOMAIN g.stmts /\ g.stmts[i].outs = E.g.stmts[i].outs
-                                       THEN L[i] ELSE LastNone]
+                                       THEN (IF g.stmts[i].deps = E.g.stmts[i].deps THEN L[i] ELSE [L[i] EXCEPT !.recok = FALSE])   \* a switch of deps mode leaves no usable record
+                                       ELSE LastNone]
             [] OTHER -> L
   /\ F' = IF E.op = "setstmts" THEN {} ELSE F
   /\ prev' = NoPrev
